@@ -8,7 +8,7 @@ from cgsim import gen as G, ref
 from cgsim.core import fp, Skip, state_digest
 
 ID = "C09"
-QUICK = dict(worlds=16, runs=800, seconds=25)
+QUICK = dict(worlds=16, runs=800, seconds=15)
 THOROUGH = dict(worlds=256, runs=3000, seconds=30)
 RULE = ("(unroll) seeded acyclic circuits x injective output->input pairings x n in 1..6; (sequential_unroll) circuits "
         "with 1-4 flops of one blackbox type x all flag combinations; every initial state and input sequence is "
